@@ -4,6 +4,7 @@
 //! conformance harness, provides a trace sink and I/O shims (in-memory network, scriptable HTTP
 //! transport) that are inert unless a harness activates them.
 
+pub mod chan;
 pub mod http;
 pub mod net;
 pub mod trace;
